@@ -21,7 +21,7 @@ RULE = (
     "(screen hash, replacement kind, model, scorer, n_chunks, batch); non-trivial = >=1 masked row and >=1 observed row"
 )
 ASSUMPTIONS = ["observed values exactly 0 or 1 are outside the interaction model's transform (logit gives +-inf) and are not generated for it", "both members of a pair use the same seed and the same global numpy seed so that only masked values differ"]
-REQUIRED = {"pairs_with_an_oracle_model_in_the_same_process": {"quick": 100, "thorough": 1200}, "refused_deliveries_of_results": {"quick": 200, "thorough": 2500}, "own_parameter_blocks_compared": {"quick": 250, "thorough": 3000}, "single_observation_changes": {"quick": 300, "thorough": 4000}, "single_observation_changes_of_a_cell_lines_only_experiment": {"quick": 30, "thorough": 400}, "refusals_of_tiny_negative_values": {"quick": 150, "thorough": 2000}, "pairs_with_non_default_model_switches": {"quick": 80, "thorough": 1000}, "refusals_checked_for_side_effects": {"quick": 200, "thorough": 2500}, "training_sets_with_values_above_one": {"quick": 40, "thorough": 500}, "two_batch_histories": {"quick": 100, "thorough": 1200}, "cli_pairs": {"quick": 6, "thorough": 40}, "cli_replacement_nan": {"quick": 1, "thorough": 6}, "pairs_compared": {"quick": 250, "thorough": 3000}, "artefacts_compared": {"quick": 1200, "thorough": 15000}, "training_set_checks": {"quick": 250, "thorough": 3000}, "refusals_checked": {"quick": 2000, "thorough": 25000}}
+REQUIRED = {"pipelines_after_looking_at_views": {"quick": 40, "thorough": 600}, "pairs_with_an_oracle_model_in_the_same_process": {"quick": 100, "thorough": 1200}, "refused_deliveries_of_results": {"quick": 200, "thorough": 2500}, "own_parameter_blocks_compared": {"quick": 250, "thorough": 3000}, "single_observation_changes": {"quick": 300, "thorough": 4000}, "single_observation_changes_of_a_cell_lines_only_experiment": {"quick": 30, "thorough": 400}, "refusals_of_tiny_negative_values": {"quick": 150, "thorough": 2000}, "pairs_with_non_default_model_switches": {"quick": 80, "thorough": 1000}, "refusals_checked_for_side_effects": {"quick": 200, "thorough": 2500}, "training_sets_with_values_above_one": {"quick": 40, "thorough": 500}, "two_batch_histories": {"quick": 100, "thorough": 1200}, "cli_pairs": {"quick": 6, "thorough": 40}, "cli_replacement_nan": {"quick": 1, "thorough": 6}, "pairs_compared": {"quick": 250, "thorough": 3000}, "artefacts_compared": {"quick": 1200, "thorough": 15000}, "training_set_checks": {"quick": 250, "thorough": 3000}, "refusals_checked": {"quick": 2000, "thorough": 25000}}
 N_PAIRS = {"quick": 640, "thorough": 6400}
 
 
@@ -204,6 +204,31 @@ def run_shard(rec, tier, seed, shard, nshards):
         """the active-learning step on one screen; returns dict of artefacts"""
         art = {}
         np.random.seed(cfg["npseed"])
+        if cfg.get("browse"):
+            # before the step the user looks at the data through views: what is observed next to a plate that is not,
+            # a few masked plates side by side, the complement of the observed part.  Looking reveals nothing.
+            from batchie.data import ScreenSubset
+
+            m_before = np.array(screen.observation_mask, copy=True)
+            masked_ = [p_ for p_ in screen.plates if not p_.is_observed]
+            brng = np.random.default_rng(cfg["browse"])
+            try:
+                for _ in range(int(brng.integers(1, 4))):
+                    how = int(brng.integers(5))
+                    if how == 0 and masked_:
+                        ScreenSubset.concat([screen.subset_observed()] + [masked_[int(i)] for i in brng.choice(len(masked_), size=int(brng.integers(1, min(3, len(masked_)) + 1)), replace=False)])
+                    elif how == 1 and masked_:
+                        screen.subset_observed().combine(masked_[int(brng.integers(len(masked_)))])
+                    elif how == 2 and len(masked_) >= 2:
+                        ScreenSubset.concat([masked_[0], masked_[-1]]).invert()
+                    elif how == 3:
+                        screen.subset_unobserved().invert().combine(screen.subset_unobserved())
+                    else:
+                        ScreenSubset.concat([screen.subset_unobserved(), screen.subset_observed()])
+            except Exception as e:
+                rec.did_not_return("browse-views", e)
+            rec.count("pipelines_after_looking_at_views")
+            rec.check(bool(np.array_equal(screen.observation_mask, m_before)), "C04/pipeline/looking-at-views-revealed-rows", lambda: "after view algebra (concat / combine / invert of the observed view and masked plates) %d rows are marked observed, %d before" % (int(np.sum(screen.observation_mask)), int(m_before.sum())), None)
         sub = screen.subset_observed()
         holders = []
         handed = []
@@ -266,6 +291,7 @@ def run_shard(rec, tier, seed, shard, nshards):
             n_dchunks=int(rng.integers(1, 6)), n_chunks=int(rng.integers(1, 6)), max_chunk=int(rng.choice([1, 2, 50])),
             scorer=str(rng.choice(["dbal", "dbal", "dbal-sub", "random", "size"])), batch=[int(x) for x in rng.choice(unobs, size=bsz, replace=False)] if bsz else [],
             policy=bool(rng.random() < 0.4), k=int(rng.integers(1, 3)),
+            browse=int(rng.integers(1, 2**31)) if rng.random() < 0.4 else 0,
         )
         if rng.random() < 0.4:
             # the constructor's switches, any combination (none of them makes a model look behind the mask)
